@@ -6,7 +6,7 @@ from harness.core import cbool, clist, cnat, copt, cq
 ID = "C06"
 MODEL_TARGETS = ["C06/Cases.vo"]
 PROOF_TARGETS = ["C06/Gen.vo", "C06/WrapSem.vo", "C06/GenWrap.vo", "C06/Bridge.vo",
-                 "C06/Proofs.vo", "C06/Refuted.vo"]
+                 "C06/Proofs.vo", "C06/GMean.vo", "C06/Refuted.vo"]
 OBLIGATION_FILES = ["C06/Bridge.v", "C06/Refuted.v"]
 PROPS_FILE = "C06/Props.v"
 SHARD = 120
@@ -30,8 +30,11 @@ TRUSTED = [
     "np.abs / np.square as the scalar operation per horizon step, np.average / np.mean / np.median, "
     "scipy gmean, sklearn 1.7 mean_absolute_error / mean_squared_error / root_mean_squared_error / "
     "median_absolute_error and _weighted_percentile (algorithm transcribed from the installed "
-    "source), _check_reg_targets as a reshaper to (horizon, outputs). numpy BROADCASTING is not "
-    "modelled by the translator (F-C06-6 lives there and was found by the correspondence run)",
+    "source), _check_reg_targets as a reshaper to (horizon, outputs). numpy BROADCASTING between "
+    "arrays of different shapes is not modelled: the translator only accepts aggregations whose "
+    "weights go through np.average(..., weights=, axis=0) / _weighted_percentile(sample_weight=) "
+    "and refuses hand-written `weights * array` products (the repaired F-C06-6 had that shape and "
+    "was found by the correspondence half, not by the translator)",
     "float64 rounding is outside the model: equalities are compared in Q with relative tolerance "
     "1e-9; square roots / geometric means are never computed but checked through their defining "
     "equation root^deg ~ pre-root quantity (the implementation's raw_values output is the witness)",
@@ -40,8 +43,10 @@ TRUSTED = [
     "real classes on every class case",
 ]
 MODELLED = [
-    "geometric-mean metrics: horizon weights restricted to positive integers (exponents in Q); the "
-    "laws are proved for the product form prod x_i^W_i and the root degree sum W_i",
+    "geometric-mean metrics: exp / log are not computed; the weighted geometric mean is modelled by "
+    "its defining equation value^(sum W_i) = prod x_i^W_i for integer weights W proportional to the "
+    "horizon weights (any rational weights >= 0, not all zero; GMean.v proves the choice of the "
+    "common multiple immaterial)",
     "relative_loss: relative_loss_function ranges over mean/median absolute/squared error only",
     "input validation (shape / index checks, y_train before y_true) is not modelled; only valid "
     "inputs are generated (horizon >= 1, len(y_train) > sp, weights >= 0 with positive sum)",
@@ -121,17 +126,17 @@ def _vals(rng, n, style):
         return [rng.choice([0.0, 0.0, 1.0, -2.0, 0.5]) for _ in range(n)]
     if style == "tiny":
         return [rng.choice([0.0, 2.0 ** -60, -2.0 ** -55, 2.0 ** -53, 1.0, -0.5]) for _ in range(n)]
+    if style == "eps":
+        # differences around machine epsilon, all exactly representable: both sides of the EPS clamps
+        return [rng.choice([0.0, 2.0 ** -60, -2.0 ** -55, 2.0 ** -53, 2.0 ** -51, -2.0 ** -50,
+                            2.0 ** -52]) for _ in range(n)]
     if style == "big":
         return [rng.choice([1024.0, -4096.0, 0.5, 3.0, 2.0 ** 20]) for _ in range(n)]
     return [rng.choice(grid) for _ in range(n)]
 
 
-def _hw(rng, n, integer=False):
+def _hw(rng, n):
     r = rng.random()
-    if integer:
-        if r < 0.3:
-            return [float(rng.choice([1, 2, 3]))] * n
-        return [float(rng.choice([1, 1, 2, 3])) for _ in range(n)]
     if r < 0.2:
         return [rng.choice([0.5, 1.0, 2.0])] * n          # equal weights: exact cdf ties
     if r < 0.45:
@@ -198,8 +203,11 @@ def _data(rng, metric, n, k, sp):
         yp.append(p)
     if extra == "y_pred_benchmark":
         yb = []
+        near = rng.random() < 0.12      # benchmark within a few EPS of the truth everywhere
+        if near:
+            yt = [_vals(rng, n, "eps") for _ in range(k)]
         for j in range(k):
-            b = _vals(rng, n, rng.choice([style, "mixed"]))
+            b = _vals(rng, n, "eps" if near else rng.choice([style, "mixed"]))
             for i in range(n):
                 r = rng.random()
                 if r < 0.2:
@@ -209,7 +217,8 @@ def _data(rng, metric, n, k, sp):
             yb.append(b)
     if extra == "y_train":
         m = sp + rng.choice([1, 1, 2, 3, 5])
-        ytr = [_vals(rng, m, rng.choice([style, "mixed", "mixed", "const"])) for _ in range(k)]
+        ytr = [_vals(rng, m, rng.choice([style, "mixed", "mixed", "const", "eps"]))
+               for _ in range(k)]
     return yt, yp, yb, ytr
 
 
@@ -231,7 +240,7 @@ def _func_case(rng, metric, force=None):
             yp[j][i] = yt[j][i] - o["asymmetric_threshold"]
     hw = None
     if force.get("hw", rng.random() < 0.5):
-        hw = _hw(rng, n, integer=sh in GM)
+        hw = _hw(rng, n)
     c = {"kind": "func", "metric": metric, "opts": o, "mo": _mo(rng, k), "hw": hw,
          "univariate": univ, "container": "pandas" if rng.random() < 0.2 else "numpy",
          "y_true": yt, "y_pred": yp}
@@ -476,6 +485,15 @@ def _wpercentile(w, l):
     return last
 
 
+def _int_weights(hw):
+    """integer weights proportional to the rational ones (Model.int_weights)."""
+    import math
+    D = 1
+    for w in hw:
+        D = D * w.denominator // math.gcd(D, w.denominator)
+    return [int(w * D) for w in hw]
+
+
 def _agg(a, hw, l):
     if a == "median":
         return _median(l) if hw is None else _wpercentile(hw, l)
@@ -560,7 +578,7 @@ def reference(case, perfect=False):
     k = len(T)
     if fam == "simple":
         if aggk == "gmean":
-            W = [1] * n if hw is None else [int(w) for w in hw]
+            W = [1] * n if hw is None else _int_weights(hw)
             pre = []
             for j in range(k):
                 x = Fraction(1)
